@@ -1,7 +1,7 @@
 #!/usr/bin/env python3
 """confirm_demo.py <worktree>: for every out/<ID>: demo passes on the unchanged tree, fails with the patch;
 writes out/<ID>/confirm.json. Runs entirely inside the scratch worktree."""
-import json, os, subprocess, sys
+import json, os, subprocess, sys, re
 W = sys.argv[1]
 def sh(cmd):
     r = subprocess.run(cmd, shell=True, cwd=W, capture_output=True, text=True, env={**os.environ, 'CARGO_NET_OFFLINE': 'true'})
@@ -15,6 +15,7 @@ for i in sorted(os.listdir(f'{W}/out')):
     if not cmd:
         cands = [c for c in meta.get('commands_run', []) if 'cargo test' in c and 'demo' in c]
         cmd = cands[0].split('#')[0].split('&&')[-1].strip() if cands else None
+    if cmd: cmd = re.split(r'\s{2,}\(|\s+#', cmd)[0].strip()
     demo = f'{d}/demo.diff'
     res = {'id': i, 'demo_command': cmd}
     if not cmd or not os.path.exists(demo):
